@@ -179,9 +179,24 @@ template <> struct ElemTraits<int>
   static int  default_value () { return 0; }
 };
 
+#define SVMC_ARITH_TRAITS(TYPE, NAME)                                                            \
+  template <> struct ElemTraits<TYPE>                                                            \
+  {                                                                                              \
+    static const bool hooked        = false;                                                     \
+    static const bool copyable      = true;                                                      \
+    static const bool move_nothrow  = true;                                                      \
+    static const char *name () { return NAME; }                                                  \
+    static int  get (const TYPE& t) { return static_cast<int> (t); }                             \
+    static int  default_value () { return 0; }                                                   \
+  };
+SVMC_ARITH_TRAITS (unsigned char, "U8")
+SVMC_ARITH_TRAITS (unsigned short, "U16")
+SVMC_ARITH_TRAITS (unsigned int, "U32")
+SVMC_ARITH_TRAITS (unsigned long long, "U64")
+
 // Uniform construction from an int payload. For hooked types this is the explicit value
 // constructor (a fault point); for trivial types it is aggregate / scalar initialisation.
-template <typename T> inline T make_elem (int x) { return T (x); }
+template <typename T> inline T make_elem (int x) { return static_cast<T> (x); }
 template <> inline Triv make_elem<Triv> (int x) { Triv t; t.v = x; return t; }
 template <> inline int  make_elem<int>  (int x) { return x; }
 
